@@ -234,6 +234,57 @@ def rename_case(item):
     return dict(ok=True)
 
 
+def twin_nested(item, srcs, src_name, target):
+    """rows with array / object cells; after the duplicate a step edits the NESTED values of one twin in place:
+    the other twin must still be the exact copy (a copy that shares nested lists / dicts with the original is not one)"""
+    from dataflows import Flow
+    import dataflows as DF
+    import copy
+    n, pos, to_end, which = item['n'], item['pos'], item['to_end'], item['which']
+    for s_ in srcs:
+        for k, r_ in enumerate(s_):
+            r_['tags'] = ['t%d' % k, [k]]
+            r_['meta'] = dict(k=k, deep=dict(l=[k]))
+    want = copy.deepcopy(srcs)
+
+    def edit_nested(package):
+        yield package.pkg
+        for rows in package:
+            if rows.res.name == target:
+                def it(rows=rows):
+                    for r_ in rows:
+                        r_['tags'].append('late')
+                        r_['tags'][1].append(99)
+                        r_['meta']['deep']['l'].append(99)
+                        r_['meta']['k'] = -1
+                        yield r_
+                yield it()
+            else:
+                yield rows
+    try:
+        with contextlib.redirect_stdout(io.StringIO()):
+            res, dp, _ = Flow(*[copy.deepcopy(s_) for s_ in srcs], DF.duplicate(src_name, 'dup', duplicate_to_end=to_end, batch_size=item.get('batch', 1000)),
+                              edit_nested).results()
+    except Exception as e:
+        return dict(ok=False, why='raised %s: %s' % (type(e).__name__, str(e)[:200]))
+    by = {r['name']: rows for r, rows in zip(dp.descriptor['resources'], res)}
+    other = src_name if which == 'copy' else 'dup'
+    if by.get(other) != want[pos]:
+        return dict(ok=False, why='nested values of the twin that was NOT edited changed', resource=other, got=(by.get(other) or [None])[:1])
+    edited = copy.deepcopy(want[pos])
+    for r_ in edited:
+        r_['tags'].append('late')
+        r_['tags'][1].append(99)
+        r_['meta']['deep']['l'].append(99)
+        r_['meta']['k'] = -1
+    if by.get(target) != edited:
+        return dict(ok=False, why='the edited twin is not what the edit defines', resource=target, got=(by.get(target) or [None])[:1])
+    for i in range(n):
+        if i != pos and by.get('res_%d' % (i + 1)) != want[i]:
+            return dict(ok=False, why='an unrelated resource changed', resource='res_%d' % (i + 1))
+    return dict(ok=True)
+
+
 def twin_case(item):
     """duplicate, then a step restricted to ONE of the twins: the other twin - descriptor and rows - stays the exact copy"""
     from dataflows import Flow
@@ -243,6 +294,8 @@ def twin_case(item):
     srcs = [[dict(id=i * 100 + k, v='s%d' % k) for k in range(3)] for i in range(1, n + 1)]
     src_name = 'res_%d' % (pos + 1)
     target = 'dup' if which == 'copy' else src_name
+    if edit == 'nested_inplace':
+        return twin_nested(item, srcs, src_name, target)
     step = {'add_field': lambda: DF.add_field('flag', 'string', 'x', resources=target),
             'delete_fields': lambda: DF.delete_fields(['v'], resources=target),
             'set_type': lambda: DF.set_type('id', type='string', transform=str, resources=target),
@@ -334,7 +387,8 @@ def run():
             rep.violation(it, dict(program='%d resources, update_resource(%d, name=...), then %s' % (it['n'], it['pos'], it['follow']),
                                    **{k_: v for k_, v in out.items() if k_ != 'ok'}), category='update_resource/%s' % out['why'][:40])
     tw = [dict(n=n, pos=p_, to_end=e, which=w, edit=ed) for n in (1, 2, 3) for p_ in range(n) for e in (False, True) for w in ('copy', 'original')
-          for ed in ('add_field', 'delete_fields', 'set_type', 'rename_fields', 'update_schema', 'set_primary_key')]
+          for ed in ('add_field', 'delete_fields', 'set_type', 'rename_fields', 'update_schema', 'set_primary_key', 'nested_inplace')]
+    tw += [dict(n=2, pos=p_, to_end=e, which=w, edit='nested_inplace', batch=b) for p_ in range(2) for e in (False, True) for w in ('copy', 'original') for b in (1, 2)]
     for it, out in zip(tw, pmap(twin_case, tw, chunksize=4)):
         if '__harness_error__' in out:
             raise tlc.MachineryError('harness error: ' + out['__harness_error__'])
